@@ -87,11 +87,14 @@ Proof. exact mpr_refine_not_encapsulated_exit_sound. Qed.
 
 (** non-vacuity of the libccd exit: A = {(0,0,0)}, B = {(2,0,0)}, direction (1,0,0): w = (-2,0,0), w.dir = -2 *)
 Example C02_libccd_exit_nonvacuous :
-  let A : set3 := fun x => x = V 0 0 0 in
-  let B : set3 := fun x => x = V 2 0 0 in
-  is_support A (V 1 0 0) (V 0 0 0) /\ is_support B (vneg (V 1 0 0)) (V 2 0 0) /\
-  (EPS <= dot (vsub (V 0 0 0) (V 2 0 0)) (vsub (V 0 0 0) (V 2 0 0)))%R /\
-  (dot (vsub (V 0 0 0) (V 2 0 0)) (V 1 0 0) < - EPS_SQRT)%R.
+  let o : V3R := V 0%R 0%R 0%R in
+  let c : V3R := V 2%R 0%R 0%R in
+  let d : V3R := V 1%R 0%R 0%R in
+  let A : set3 := fun x => x = o in
+  let B : set3 := fun x => x = c in
+  is_support A d o /\ is_support B (vneg d) c /\
+  (EPS <= dot (vsub o c) (vsub o c))%R /\
+  (dot (vsub o c) d < - EPS_SQRT)%R.
 Proof.
   cbv zeta. unfold is_support, EPS, EPS_SQRT. cbn [cst ROps]. unfold Q2R. cbn.
   repeat split; try (intros x ->; vunfold; Lra.lra); vunfold; Lra.lra.
